@@ -41,7 +41,9 @@ def stretch_extreme(s, rng, classes=('0123456789', '$', '^', '.', '-', ' ', '@',
 
 # characters on the borders of the character classes the scanners use (str.isdecimal / isdigit / isnumeric / isalpha / isspace disagree on them)
 CLASS_BORDER_CHARS = ['\u00b2', '\u2460', '\u0663', '\uff13', '\u00bd', '\u2177', '\U0001d7d1', '\u0967', '\u00e9', '\u0416', '\u00aa', '\u01c5', '\u00df', '\u0130',
-                      '\u00a0', '\u2028', '\u3000', '\x85', '\x0b', '\x0c', '\x1c', '\u200b', '\ufeff', '\u0301', '\u4e2d', '\U0001f600', '\x00', '\x7f']
+                      '\u00a0', '\u2028', '\u3000', '\x85', '\x0b', '\x0c', '\x1c', '\u200b', '\ufeff', '\u0301', '\u4e2d', '\U0001f600', '\x00', '\x7f',
+                      # sequences that change under Unicode normalisation or case mapping (a scanner must work on the string it was given)
+                      'e\u0301', 'A\u030a', '\u1100\u1161', '\u0958', '\u212b', '\u2126', '\ufb01', '\u1e9e', '\u0149', '\u03c2']
 MARKUP_NUMBER_SLOTS = ['a*%s', 'a*1%s', 'a.c$@%s*2', 'a.c$@-%s*2', 'p{${%s}}', 'p{${%s:x}}', 'a[b=${%s}]', 'a%s', '.%s', '#%s', '[%s=%s]', '{%s}', 'a>%s', 'a[%s]', 'a["%s"]', '%s',
                        'lorem%s', 'a{$%s}', 'a$%s*2', '(a)*%s', 'a/%s', 'a^%s', 'a.%s$', 'a:%s']
 CSS_NUMBER_SLOTS = ['m%s', 'm1%s', 'm%s1', '#%s', 'c#%s', 'c#f.%s', '1-%spx', 'p${%s}', 'p${%s:x}', 'p:%s', '@%s', '$%s', 'm-%s', 'm.%s', 'm1.%s', '%s', 'p"%s"', 'p(%s)', 'p!%s', 'm1%s2',
